@@ -6,7 +6,7 @@
    among equally ranked free workers in any way.  [final inp] is the
    dispatcher state after the run, [trace inp] what was observable. *)
 From Coq Require Import ZArith List Bool Lia.
-From Verif Require Import C12.Model C12.Spec C12.Proofs.
+From Verif Require Import C12.Model C12.Spec C12.Proofs C12.ProofsJ C12.ProofsM C12.LoopModel C12.LoopProofs.
 Import ListNotations.
 Open Scope Z_scope.
 
@@ -122,24 +122,86 @@ Theorem C12_no_crash_if_contract_kept : forall inp,
 Proof. exact no_crash_if_env_ok. Qed.
 Print Assumptions C12_no_crash_if_contract_kept.
 
-(* Success means all answered — PARTIAL.  Proved (one-step facts, for every
-   state): a success verdict is only sent on a successful result of a job of
-   that batch when exactly one of its requests was unanswered; a successful
-   result is never re-queued and lowers the unanswered count of its (live)
-   batch by exactly one, touching no other batch; failed and cancelled
-   results never change the count of a batch that stays live.  Hence success
-   is sent exactly when the number of successful results attributed to the
-   batch reaches the number of its requests.  NOT proved here: that under
-   the worker contract these successful results belong to pairwise distinct
-   requests (each request exactly once) — this is enforced by the job
-   monitor [jholds] on every implementation trace instead. *)
-Theorem C12_success_only_when_last_partial : forall s j p e s1 bn mx,
+(* Success means all answered.  [before_quit (trace inp)] is what the
+   dispatcher saw (up to the first Quit; afterwards only shutdown errors are
+   sent, see C12_only_shutdown_errors_after_quit).  Batches are numbered in
+   submission order, batch b owns the consecutive job indices
+   [requests_of tr b]; [ok_count j tr] counts the successful results
+   (Result j _ JOk) of request j.  For every history in which the environment
+   keeps the worker contract (a result is reported by the worker that holds
+   the job — C12_loop_worker_view_agrees proves this of worker.Run), for every
+   step and every verdict (b, vd) sent in it:
+
+     vd is success  <->  batch b has requests and, counting the event of this
+                         very step, every one of them has exactly one
+                         successful result.
+
+   Together with C12_exactly_one_verdict: the one verdict of a batch is
+   success iff all of its requests had been answered successfully when the
+   verdict was given — late results, results of other batches, results
+   arriving after another batch's cancel or timeout, retries after failures
+   and worker departures notwithstanding; a result is never attributed to
+   another batch, and no request is ever answered successfully twice (so the
+   successful results counted for a batch belong to pairwise distinct
+   requests of that batch).  An empty batch never succeeds (its counter never
+   reaches zero by a decrement): it is answered by the idle timer or at
+   shutdown. *)
+Theorem C12_success_iff_all_answered : forall inp,
+  envbad (final inp) = false ->
+  forall pre e o post b vd,
+    before_quit (trace inp) = pre ++ (e, o) :: post -> In (b, vd) (overd o) ->
+    (vd = VSuccess <-> all_answered (before_quit (trace inp)) b (pre ++ [(e, o)])).
+Proof. intros inp H. exact (proj1 (success_iff_model inp H)). Qed.
+Print Assumptions C12_success_iff_all_answered.
+
+Theorem C12_no_request_answered_twice : forall inp,
+  envbad (final inp) = false ->
+  forall j, (ok_count j (before_quit (trace inp)) <= 1)%nat.
+Proof. intros inp H. exact (proj2 (success_iff_model inp H)). Qed.
+Print Assumptions C12_no_request_answered_twice.
+
+Theorem C12_only_shutdown_errors_after_quit : forall inp pre o post,
+  trace inp = pre ++ (Quit, o) :: post ->
+  forall b vd, In (b, vd) (flat_map (fun eo => overd (snd eo)) ((Quit, o) :: post)) -> vd = VShutdown.
+Proof. exact quit_then_only_shutdown. Qed.
+Print Assumptions C12_only_shutdown_errors_after_quit.
+
+(* The job monitor evaluated on implementation traces accepts every model
+   trace (hand-out order, no re-issue of an answered or dropped job, success
+   announced exactly when the last request of a live batch is answered,
+   unanswered jobs of live batches queued again, no queued job of a live
+   batch waiting while a worker is free); once the environment breaks the
+   worker contract the monitor stops judging. *)
+Theorem C12_job_monitor_accepts_model : forall inp,
+  crashed (final inp) = false -> jholds (trace inp) = true.
+Proof. exact jholds_model. Qed.
+Print Assumptions C12_job_monitor_accepts_model.
+
+(* ... and what acceptance by the monitors means, for ANY trace (also the
+   implementation's) without Quit in which the contract was kept: the same
+   statement as C12_success_iff_all_answered — the monitors are sound for the
+   theorem's notion of "all answered". *)
+Theorem C12_monitors_mean_success_iff_all_answered : forall tr v m,
+  noquit tr -> mon_run vstep vinit tr = Some v -> mon_run jstep jinit tr = Some m -> jenv m = true ->
+  (forall pre e o post b vd, tr = pre ++ (e, o) :: post -> In (b, vd) (overd o) ->
+     (vd = VSuccess <-> all_answered tr b (pre ++ [(e, o)]))) /\
+  (forall j, (ok_count j tr <= 1)%nat).
+Proof. exact monitors_mean_success_iff. Qed.
+Print Assumptions C12_monitors_mean_success_iff_all_answered.
+
+(* The counter mechanism behind it (one-step facts, for every state): a
+   success verdict is only sent on a successful result of a job of that batch
+   when exactly one of its requests was unanswered; a successful result is
+   never re-queued and lowers the unanswered count of its (live) batch by
+   exactly one, touching no other batch; failed and cancelled results never
+   change the count of a batch that stays live. *)
+Theorem C12_success_only_when_counter_reaches_zero : forall s j p e s1 bn mx,
   handle s (Result j p e) = (s1, [(bn, VSuccess)], mx) ->
   e = JOk /\ bn = batch_of_job s j /\ exists b, z_get (batches s) bn = Some b /\ rem b = 1.
 Proof. exact success_only_when_last. Qed.
-Print Assumptions C12_success_only_when_last_partial.
+Print Assumptions C12_success_only_when_counter_reaches_zero.
 
-Theorem C12_ok_result_counts_once_partial : forall s j p s1 vs mx b,
+Theorem C12_ok_result_counts_once : forall s j p s1 vs mx b,
   handle s (Result j p JOk) = (s1, vs, mx) -> crashed s1 = false ->
   z_get (batches s) (batch_of_job s j) = Some b ->
   work s1 = work s /\ mx = [] /\
@@ -149,13 +211,13 @@ Theorem C12_ok_result_counts_once_partial : forall s j p s1 vs mx b,
      vs = [] /\ exists b', z_get (batches s1) (batch_of_job s j) = Some b' /\ rem b' = rem b - 1) /\
   (forall bn', bn' <> batch_of_job s j -> z_get (batches s1) bn' = z_get (batches s) bn').
 Proof. exact ok_result_counts_once. Qed.
-Print Assumptions C12_ok_result_counts_once_partial.
+Print Assumptions C12_ok_result_counts_once.
 
-Theorem C12_failed_result_keeps_counts_partial : forall s j p e s1 vs mx bn' b',
+Theorem C12_failed_result_keeps_counts : forall s j p e s1 vs mx bn' b',
   handle s (Result j p e) = (s1, vs, mx) -> crashed s1 = false -> e <> JOk ->
   z_get (batches s1) bn' = Some b' -> z_get (batches s) bn' = Some b'.
 Proof. exact failed_result_keeps_counts. Qed.
-Print Assumptions C12_failed_result_keeps_counts_partial.
+Print Assumptions C12_failed_result_keeps_counts.
 
 (* ---- worker.Run (second machine) and its composition with the dispatcher.
 
@@ -209,6 +271,62 @@ Theorem C12_later_batch_handed_to_free_worker : forall s n nr rt pt picks,
 Proof. exact newbatch_handed_out. Qed.
 Print Assumptions C12_later_batch_handed_to_free_worker.
 
+(* ---- Closed loop (LoopModel.v): the dispatcher, one worker.Run machine per
+   peer and an environment that only chooses new batches, peer connects,
+   peer replies, job timers, disconnects, cancels, batch timers and Quit, as
+   ONE transition system; [crun ls] is the state after ANY sequence of labels
+   (labels that are not enabled are no-ops).
+
+   In every reachable state: the dispatcher has seen no breach of the worker
+   contract ([envbad], the hypothesis of the theorems above, is now proved
+   false), has not hit the nil-worker panic, and its view of every worker
+   agrees with that worker's own state — "busy with job j" exactly when the
+   machine works on j or holds j's result, "free" exactly when it is idle,
+   "exited" exactly when Run has returned; after Quit every worker is gone,
+   holding the job the dispatcher thought it had. *)
+Theorem C12_loop_worker_view_agrees : forall ls,
+  envbad (disp (crun ls)) = false /\ crashed (disp (crun ls)) = false /\ view_agrees (crun ls).
+Proof. exact loop_view. Qed.
+Print Assumptions C12_loop_worker_view_agrees.
+
+(* ... and every batch still gets exactly one verdict: none while live, one
+   once finished, one for every batch ever submitted after Quit. *)
+Theorem C12_loop_exactly_one_verdict : forall ls b,
+  let c := crun ls in
+  (In b (bkeys (disp c)) -> vcount b c = 0%nat) /\
+  (0 <= b < batchIndex (disp c) -> ~ In b (bkeys (disp c)) -> vcount b c = 1%nat) /\
+  (~ (0 <= b < batchIndex (disp c)) -> vcount b c = 0%nat) /\
+  (stopped (disp c) = true -> 0 <= b < batchIndex (disp c) -> vcount b c = 1%nat).
+Proof. exact loop_exactly_one. Qed.
+Print Assumptions C12_loop_exactly_one_verdict.
+
+(* Non-vacuity of the closed loop: two peers; batch 0 (two requests, one
+   retried after a job timeout and once more after its peer disconnected,
+   whose worker exits) succeeds; batch 1 times out on its idle timer, its
+   worker sees the internal cancel and the late result is discarded; peer 2
+   reconnects; batch 2 is answered at Quit, its worker told to quit while
+   holding the job. *)
+Definition lab (e : cev) : clabel := {| lev := e; lpicks := []; lpcs := [] |}.
+Definition ex_loop : list clabel :=
+  map lab
+  [ CPeer 1; CPeer 2;
+    CNewBatch 2 false 3 0;          (* batch 0: jobs 0, 1 -> workers 1, 2 *)
+    CNewBatch 1 true 0 1;           (* batch 1: job 2, idle timer *)
+    CMsg 1 true false; CTake 1;     (* job 0 answered; job 2 -> worker 1 *)
+    CTimer 2; CTake 2;              (* job 1 times out, queued again -> worker 2 *)
+    CWake 1 1;                      (* batch 1: idle timeout *)
+    CCancelSeen 1; CTake 1;         (* worker 1 sees the internal cancel; result discarded *)
+    CDisc 2; CTake 2;               (* job 1: peer gone, queued again -> worker 1; worker 2 exits *)
+    CMsg 1 true false; CTake 1;     (* batch 0 succeeds *)
+    CPeer 2;
+    CNewBatch 1 false 1 0;          (* batch 2: job 3 *)
+    CQuit ].
+Example C12_loop_nonvacuous :
+  vlog (crun ex_loop) = [(1, VTimeout); (0, VSuccess); (2, VShutdown)] /\
+  wst (crun ex_loop) = [(1, WGone (Some 3)); (2, WGone None)] /\
+  map wactive (workers (disp (crun ex_loop))) = [Some 3; None].
+Proof. vm_compute. repeat split; reflexivity. Qed.
+
 (* Non-vacuity: two workers, three batches in flight (retry after a timeout
    then success; retry cap reached, later results discarded; idle-timer
    timeout), an empty batch answered only at Quit — the hypotheses hold
@@ -237,3 +355,30 @@ Example C12_nonvacuous :
   flat_map (fun eo => overd (snd eo)) (trace ex_inp) =
     [(1, VOther); (0, VSuccess); (2, VTimeout); (3, VShutdown)].
 Proof. vm_compute. repeat split; reflexivity. Qed.
+
+(* ... and in that history batch 0 (jobs 0 and 1) gets its success verdict at
+   step 9, exactly when, job 1 having been retried after a timeout, both of
+   its requests have one successful result; batch 1 (jobs 2 and 3) has failed
+   although job 3 is answered later: that result is not counted for it. *)
+Example C12_success_nonvacuous :
+  requests_of (before_quit (trace ex_inp)) 0 = [0; 1] /\
+  all_answered (before_quit (trace ex_inp)) 0 (firstn 10 (before_quit (trace ex_inp))) /\
+  ~ all_answered (before_quit (trace ex_inp)) 0 (firstn 9 (before_quit (trace ex_inp))) /\
+  ok_count 3 (before_quit (trace ex_inp)) = 1%nat /\
+  ~ all_answered (before_quit (trace ex_inp)) 1 (before_quit (trace ex_inp)).
+Proof.
+  assert (E0 : requests_of (before_quit (trace ex_inp)) 0 = [0; 1]) by (vm_compute; reflexivity).
+  assert (E1 : requests_of (before_quit (trace ex_inp)) 1 = [2; 3]) by (vm_compute; reflexivity).
+  assert (C0 : ok_count 0 (firstn 10 (before_quit (trace ex_inp))) = 1%nat) by (vm_compute; reflexivity).
+  assert (C1 : ok_count 1 (firstn 10 (before_quit (trace ex_inp))) = 1%nat) by (vm_compute; reflexivity).
+  assert (C1' : ok_count 1 (firstn 9 (before_quit (trace ex_inp))) = 0%nat) by (vm_compute; reflexivity).
+  assert (C2 : ok_count 2 (before_quit (trace ex_inp)) = 0%nat) by (vm_compute; reflexivity).
+  assert (C3 : ok_count 3 (before_quit (trace ex_inp)) = 1%nat) by (vm_compute; reflexivity).
+  unfold all_answered. rewrite E0, E1.
+  split; [reflexivity|]. split.
+  { split; [discriminate|]. intros j [<-|[<-|[]]]; assumption. }
+  split.
+  { intros [_ H]. specialize (H 1 (or_intror (or_introl eq_refl))). congruence. }
+  split; [exact C3|].
+  intros [_ H]. specialize (H 2 (or_introl eq_refl)). congruence.
+Qed.
